@@ -185,22 +185,46 @@ class Ctx:
         return np.vectorize(lambda v: tm.lift(v), otypes=[object])(arr)
 
     def _full_pre(self) -> List[T]:
-        pc = self.eng.pc_terms()
+        pc = list(getattr(self, "extra_pre", [])) + self.eng.pc_terms()
         key = (len(self.pre), len(pc))
         if getattr(self, "_pre_cache_key", None) != key:
             spc = self.solver.simplify_guards(self.pre, pc, self.eng.evalf)
             self._pre_cache = list(self.pre) + [p for p in spc if p is not tm.TRUE]
             self._pre_cache_key = key
+            # equality substitution (solve-eqs on terms): b -> a for every equality test that held on this path
+            mp = {}
+            for e in self.eng.pc:
+                for (a, b) in e.equalities():
+                    if mp:
+                        a, b = tm.substitute([a, b], mp)
+                    if a is b:
+                        continue
+                    if tm.isc(b) or (not tm.isc(a) and tm.size([b]) < tm.size([a]) and a not in set(tm.postorder([b]))):
+                        a, b = b, a
+                    if tm.isc(b) or b in set(tm.postorder([a])):
+                        continue
+                    # keep earlier rules normalised w.r.t. the new one
+                    for k in list(mp):
+                        mp[k] = tm.substitute([mp[k]], {b: a})[0]
+                    mp[b] = a
+            self._subst = mp
         return list(self._pre_cache)
 
     def _witness_ok(self, pre) -> bool:
         try:
             return all(bool(self.eng.evalq(p)) for p in pre)
+        except KeyError:  # a sub-path assumption mentions inputs the harness has not declared yet
+            return False
         except (tm.Inexact, ZeroDivisionError):
-            return all(bool(self.eng.evalf(p)) for p in pre)
+            try:
+                return all(bool(self.eng.evalf(p)) for p in pre)
+            except KeyError:
+                return False
 
     def _simp(self, pre, arr: np.ndarray) -> np.ndarray:
         flat = list(arr.reshape(-1))
+        if getattr(self, "_subst", None):
+            flat = tm.substitute(flat, self._subst)
         out = self.solver.simplify_guards(pre, flat, self.eng.evalf)
         res = np.empty(len(out), dtype=object)
         for i, t in enumerate(out):
@@ -268,11 +292,16 @@ class Ctx:
                 self.candidates.append(Candidate(i, what, "eq", dict(self.eng.envq), res["why"]))
                 self.results.append(res)
                 return
+        base_pre = [p for p in self.pre]
         for (l, r) in pairs:
             if l is r:
                 continue
-            out = self.solver.prove_equal(pre, l, r)
+            # first without the path condition (a stronger claim, usually an easier query), then with it
+            out = self.solver.prove_equal(base_pre, l, r) if len(pre) > len(base_pre) else {"status": "skip"}
             res["queries"] += 1
+            if out["status"] != "unsat":
+                out = self.solver.prove_equal(pre, l, r)
+                res["queries"] += 1
             st = out["status"]
             if st == "unsat":
                 continue
@@ -370,7 +399,7 @@ class Ctx:
         if self.mode == "replay":
             return
         pre = self._full_pre()
-        ok = all(bool(self.eng.evalf(p)) for p in pre)
+        ok = self._witness_ok(pre)
         if not ok:
             st, _ = self.solver.satisfiable(pre)
             ok = st == "sat"
@@ -418,7 +447,7 @@ def _run_path(fn, params, tier, seed, name, override, path_no, extra_pre=()):
     eng = Engine()
     ctx = Ctx("sym", tier, seed, engine=eng)
     ctx.override = override or {}
-    ctx.pre += list(extra_pre)  # sub-path assumption of the flipped branch (exact equality for allclose)
+    ctx.extra_pre = list(extra_pre)  # sub-path assumption of the flipped branch (exact equality for allclose)
     out = dict(status="proved", violations=[], inconclusive=[])
     crash = None
     try:
@@ -538,7 +567,7 @@ def run_obligation(fn: Callable, params: dict, tier: str, seed: int, name: str, 
         if paths["explored"] + len(queue) >= bound:
             paths["unexplored"] += sum(1 for e in eng.pc if e.kind == "branch" and (e.where, tm.show(e.term, 80), not e.outcome) not in tried)
             continue
-        prefix: List[T] = list(ctx.pre)
+        prefix: List[T] = list(ctx.pre) + list(ctx.extra_pre)
         for e in eng.pc:
             if e.kind == "branch" and e.where != "harness":
                 key = (e.where, tm.show(e.term, 80), not e.outcome)
